@@ -27,6 +27,21 @@ SEPS = [':', '.', '-', ';']
 RESERVED = ['index', 'sect0001', 'sect0002', 'paper', 'start']
 FILENAMES = [None, None, None, None, 'paper', 'paper.html', '[$id, sect$num(4)]', 'index [$title, sect$num(4)]',
              'start [$id, node$num(3)]', 'index [$id(2), $title, sect$num]']
+# contexts an inline construct (index entry, footnote, citation, reference) can stand in: boxes and font commands that
+# take their content as argument, environments, list items (directly after \item, after text, in the optional label),
+# table cells.  Blanks are discarded in several of these positions; the construct must survive.
+W_INLINE = ['\\textbf{%s}', '\\emph{%s}', '\\mbox{%s}', '\\fbox{%s}', '\\centerline{%s}', '\\parbox{6cm}{%s}',
+            '\\begin{center}%s\\end{center}', '\\begin{quote}%s\\end{quote}', '\\begin{minipage}{6cm}%s\\end{minipage}',
+            '\\begin{itemize}\\item %s \\item other\\end{itemize}', '\\begin{itemize}\\item word %s\\end{itemize}',
+            '\\begin{enumerate}\\item first \\item%s\\end{enumerate}', '\\begin{description}\\item[%s] body\\end{description}',
+            '\\begin{tabular}{ll}%s & b \\\\ c & d\\end{tabular}', '\\begin{tabular}{ll}a & %s \\\\ c & d\\end{tabular}']
+W_INDEX_ONLY = ['\\begin{itemize}%s\\item text\\end{itemize}', '\\begin{enumerate}%s \\item text \\item more\\end{enumerate}']
+# contexts for block constructs (equations, theorems, lists)
+W_BLOCK = ['\\begin{center}%s\\end{center}', '\\begin{quote}%s\\end{quote}', '\\begin{minipage}{8cm}%s\\end{minipage}',
+           '\\begin{itemize}\\item %s\\end{itemize}', '\\begin{itemize}\\item text %s \\item more\\end{itemize}']
+# ways of setting the caption (with its label) of a float
+W_CAPTION = ['%s', '%s', '\\centering %s', '\\parbox{8cm}{%s}', '\\centerline{\\parbox{8cm}{%s}}', '\\begin{center}%s\\end{center}',
+             '\\begin{minipage}{6cm}%s\\end{minipage}', '\\fbox{\\parbox{6cm}{%s}}']
 LEVELS = {'article': ['section', 'subsection', 'subsubsection'],
           'book': ['chapter', 'section', 'subsection']}
 LEVELNUM = {'part': -1, 'chapter': 0, 'section': 1, 'subsection': 2, 'subsubsection': 3}
@@ -161,13 +176,28 @@ class DocGen:
 
         self.reforder = []
 
+        def inline(snippet, index=False):
+            """put an inline construct into up to two nested contexts"""
+            for depth in range(2):
+                if rng.random() < (0.6 if index and depth == 0 else 0.35):
+                    ws = W_INLINE + (W_INDEX_ONLY if index else [])
+                    w = rng.choice(ws)
+                    if not snippet.startswith('\\'):
+                        w = w.replace('\\item%s', '\\item %s')      # a control word needs its delimiter before letters
+                    snippet = w % snippet
+                    index = False
+            return snippet
+
+        def block(snippet):
+            return rng.choice(W_BLOCK) % snippet if rng.random() < 0.25 else snippet
+
         def items(its):
             for it in its:
                 k = it[0]
                 if k == 'text':
                     out.append('Some %s text.' % rng.choice(WORDS))
                 elif k == 'foot':
-                    out.append(('Word\\footnote{note %s} more.' if rng.random() < 0.75 else '\\footnote{note %s}') % rng.choice(WORDS))
+                    out.append(inline(('Word\\footnote{note %s} more.' if rng.random() < 0.75 else '\\footnote{note %s}') % rng.choice(WORDS)))
                 elif k == 'index':
                     key = it[1]
                     if it[2] is not None:      # sub-entry: goes before a page format / see
@@ -175,21 +205,21 @@ class DocGen:
                         key = head + '!' + it[2] + bar + fmt
                     shape = rng.random()
                     if shape < 0.55:
-                        out.append('term\\index{%s}' % key)                       # inside running text
+                        out.append(inline('term\\index{%s}' % key))               # inside running text
                     elif shape < 0.85:
-                        out.append('\\index{%s}' % key)                           # the sole content of its paragraph
+                        out.append(inline('\\index{%s}' % key, index=True))       # the sole content of its paragraph / context
                     else:                                                         # several entries and nothing else
                         out.append('\\index{%s}\n\\index{%s}' % (key, rng.choice(WORDS)))
                 elif k == 'cite':
-                    out.append(('see \\cite{%s}.' if rng.random() < 0.75 else '\\cite{%s}') % it[1])
+                    out.append(inline(('see \\cite{%s}.' if rng.random() < 0.75 else '\\cite{%s}') % it[1]))
                 elif k == 'eq':
-                    out.append('\\begin{equation}\\label{%s} x=%d \\end{equation}' % (it[1], rng.randint(1, 9)))
+                    out.append(block('\\begin{equation}\\label{%s} x=%d \\end{equation}' % (it[1], rng.randint(1, 9))))
                 elif k == 'fig':
-                    out.append('\\begin{figure}Picture\\caption{Cap %s}\\label{%s}\\end{figure}' % (rng.choice(WORDS), it[1]))
+                    out.append('\\begin{figure}Picture %s\\end{figure}' % (rng.choice(W_CAPTION) % ('\\caption{Cap %s}\\label{%s}' % (rng.choice(WORDS), it[1]))))
                 elif k == 'tab':
-                    out.append('\\begin{table}\\caption{Tab %s}\\label{%s}\\begin{tabular}{ll}a&b\\\\c&d\\end{tabular}\\end{table}' % (rng.choice(WORDS), it[1]))
+                    out.append('\\begin{table}%s\\begin{tabular}{ll}a&b\\\\c&d\\end{tabular}\\end{table}' % (rng.choice(W_CAPTION) % ('\\caption{Tab %s}\\label{%s}' % (rng.choice(WORDS), it[1]))))
                 elif k == 'thm':
-                    out.append('\\begin{thm}\\label{%s} Claim %s.\\end{thm}' % (it[1], rng.choice(WORDS)))
+                    out.append(block('\\begin{thm}\\label{%s} Claim %s.\\end{thm}' % (it[1], rng.choice(WORDS))))
                 elif k == 'enum':
                     out.append('\\begin{enumerate}' + ' '.join('\\item%s entry %s' % ('\\label{%s}' % l if l else '', rng.choice(WORDS))
                                                               for l in it[1]) + '\\end{enumerate}')
@@ -199,9 +229,9 @@ class DocGen:
                         nref[0] += 1
                         self.reforder.append(l)
                         if rng.random() < 0.15:
-                            out.append('PG%dPG \\pageref{%s} ZZ' % (nref[0], l))
+                            out.append(inline('PG%dPG \\pageref{%s} ZZ' % (nref[0], l)))
                         else:
-                            out.append('RF%dRF \\ref{%s} ZZ' % (nref[0], l))
+                            out.append(inline('RF%dRF \\ref{%s} ZZ' % (nref[0], l)))
                 out.append('')
 
         def sec(n):
